@@ -10,7 +10,11 @@ VERSIONS = sorted(hl7apy.SUPPORTED_LIBRARIES, key=lambda v: tuple(int(x) for x i
 NV = len(VERSIONS)
 DELIMS = [None,
           {'FIELD': '!', 'COMPONENT': '*', 'SUBCOMPONENT': '$', 'REPETITION': '@', 'ESCAPE': '?'},
-          {'FIELD': '#', 'COMPONENT': '+', 'SUBCOMPONENT': '=', 'REPETITION': ';', 'ESCAPE': '/'}]
+          {'FIELD': '#', 'COMPONENT': '+', 'SUBCOMPONENT': '=', 'REPETITION': ';', 'ESCAPE': '/'},
+          # the standard characters in permuted roles (a default that collides with what the calls pass explicitly)
+          {'FIELD': '^', 'COMPONENT': '|', 'SUBCOMPONENT': '~', 'REPETITION': '&', 'ESCAPE': '\\'},
+          # a default set that carries a truncation character
+          {'FIELD': '|', 'COMPONENT': '^', 'SUBCOMPONENT': '&', 'REPETITION': '~', 'ESCAPE': '\\', 'TRUNCATION': '%'}]
 ND = len(DELIMS)
 NC = K.NCALLS
 
